@@ -126,6 +126,20 @@ func TestVerifC13(t *testing.T) {
 		w.WriteByte('\n')
 	}
 
+	// ---- replay of one stored history ------------------------------------------------------
+	if rp := os.Getenv("VERIF_C13_REPLAY_SEQ"); rp != "" {
+		b, err := os.ReadFile(rp)
+		if err != nil {
+			t.Fatal(err)
+		}
+		var h history
+		if err := json.Unmarshal(b, &h); err != nil {
+			t.Fatal(err)
+		}
+		emit(runHistory(t, h))
+		return
+	}
+
 	// ---- renameCandidate ------------------------------------------------------------------
 	dirs := []string{"/R/a/", "/R/", "/", "a/b/", "", "./", "/R/a//", "/R/./a/", "../"}
 	stems := []string{"x", "x_1", "x_9", "x_09", "x_007", "x_99", "x_0", "a_b", "x_", "_", "x_1_2", "x_test", "x_1_test",
@@ -364,4 +378,254 @@ func TestVerifC13(t *testing.T) {
 			"files": filesN, "modified": nm(fp.ModifiedFiles()), "deleted": nm(fp.DeletedFiles()),
 			"conflicts": cf, "has_conflicts": rep.HasConflicts()})
 	}
+
+	// ---- histories: the moves of one fix run, handled in a CHOSEN order ---------------------------
+	// In a real run every file is moved at most once, from where it was loaded to the place its package asks for; the
+	// order in which the fixer gets to the files is the order of the linter's violations, which differs from run to
+	// run.  Here the order is explicit: every permutation of small shapes (chains, collisions at a vacated link,
+	// swaps), and random ones.
+	w.Flush()
+	for _, h := range histories(rng, thorough) {
+		if hung {
+			break
+		}
+		emit(runHistory(t, h))
+	}
+}
+
+type hmove struct {
+	From string `json:"from"`
+	To   string `json:"to"`
+}
+
+// history: files (path -> content) held by the provider, further entries on disk that are not loaded, and the moves
+type history struct {
+	Shape    string      `json:"shape"`
+	Policy   string      `json:"policy"`
+	Disk     bool        `json:"disk"`     // provider created from a real temp tree (NewInMemoryFileProviderFromFS)
+	Init     [][2]string `json:"init"`     // loaded files: /R/... -> content
+	Unloaded []string    `json:"unloaded"` // on disk, not loaded (Disk only)
+	Moves    []hmove     `json:"moves"`
+}
+
+func permutations(n int) [][]int {
+	if n == 0 {
+		return [][]int{{}}
+	}
+	var out [][]int
+	for _, p := range permutations(n - 1) {
+		for i := 0; i <= len(p); i++ {
+			q := append(append(append([]int{}, p[:i]...), n-1), p[i:]...)
+			out = append(out, q)
+		}
+	}
+	return out
+}
+
+func histories(rng *vrng, thorough bool) []history {
+	type shape struct {
+		name     string
+		files    [][2]string // path, target ("" = stays)
+		unloaded []string
+	}
+	P, Q, S := "/R/a/x.rego", "/R/q/x.rego", "/R/s/x.rego"
+	shapes := []shape{
+		{"chain+collision-at-vacated", [][2]string{{P, Q}, {"/R/b/x.rego", P}, {"/R/c/x.rego", P}}, nil},
+		{"chain+collision,target-on-disk", [][2]string{{P, Q}, {"/R/b/x.rego", P}, {"/R/c/x.rego", P}}, []string{Q}},
+		{"chain+collision,bystander-holds-next-name", [][2]string{{P, Q}, {"/R/b/x.rego", P}, {"/R/c/x.rego", P}, {"/R/a/x_1.rego", ""}}, nil},
+		{"chain+three-contenders", [][2]string{{P, Q}, {"/R/b/x.rego", P}, {"/R/c/x.rego", P}, {"/R/d/x.rego", P}}, nil},
+		{"swap+collision", [][2]string{{P, Q}, {Q, P}, {"/R/c/x.rego", P}}, nil},
+		{"chain3+collision-in-the-middle", [][2]string{{P, Q}, {Q, S}, {"/R/c/x.rego", Q}, {"/R/d/x.rego", P}}, nil},
+		{"collision-then-vacate", [][2]string{{"/R/b/x_test.rego", "/R/a/x_test.rego"}, {"/R/c/x_test.rego", "/R/a/x_test.rego"}, {"/R/a/x_test.rego", "/R/q/x_test.rego"}}, nil},
+		{"plain-chain", [][2]string{{P, Q}, {Q, S}, {"/R/c/x.rego", P}}, nil},
+	}
+	var out []history
+	mk := func(name string, files [][2]string, unloaded []string, order []int, pol string, disk bool) {
+		h := history{Shape: name, Policy: pol, Disk: disk, Unloaded: unloaded}
+		var moving []hmove
+		for j, f := range files {
+			h.Init = append(h.Init, [2]string{f[0], "c" + strconv.Itoa(j)})
+			if f[1] != "" {
+				moving = append(moving, hmove{f[0], f[1]})
+			}
+		}
+		for _, k := range order {
+			h.Moves = append(h.Moves, moving[k])
+		}
+		if !disk {
+			h.Unloaded = nil
+		}
+		if len(h.Moves) == 0 {
+			return
+		}
+		out = append(out, h)
+	}
+	for _, sh := range shapes {
+		nm := 0
+		for _, f := range sh.files {
+			if f[1] != "" {
+				nm++
+			}
+		}
+		for _, order := range permutations(nm) {
+			for _, pol := range []string{"error", "rename"} {
+				for _, disk := range []bool{false, true} {
+					if !disk && len(sh.unloaded) > 0 {
+						continue
+					}
+					mk(sh.name, sh.files, sh.unloaded, order, pol, disk)
+				}
+			}
+		}
+	}
+	// random: 3-5 files on distinct paths, targets biased towards the places of the others
+	places := []string{"/R/a/x.rego", "/R/b/x.rego", "/R/c/x.rego", "/R/q/x.rego", "/R/a/x_1.rego", "/R/b/x_1.rego", "/R/a/y.rego", "/R/q/x_test.rego"}
+	nrand := 120
+	if thorough {
+		nrand = 2500
+	}
+	for i := 0; i < nrand; i++ {
+		idx := []int{}
+		for j := range places {
+			idx = append(idx, j)
+		}
+		for j := len(idx) - 1; j > 0; j-- {
+			k := rng.below(j + 1)
+			idx[j], idx[k] = idx[k], idx[j]
+		}
+		n := 3 + rng.below(3)
+		var files [][2]string
+		for j := 0; j < n; j++ {
+			to := ""
+			switch rng.below(6) {
+			case 0:
+			case 1:
+				to = places[idx[n+rng.below(len(places)-n)]] // a free place
+			default:
+				to = places[idx[rng.below(n)]] // the place of another file (or its own: then it stays)
+			}
+			if to == places[idx[j]] {
+				to = ""
+			}
+			files = append(files, [2]string{places[idx[j]], to})
+		}
+		nm := 0
+		for _, f := range files {
+			if f[1] != "" {
+				nm++
+			}
+		}
+		order := make([]int, nm)
+		for j := range order {
+			order[j] = j
+		}
+		for j := nm - 1; j > 0; j-- {
+			k := rng.below(j + 1)
+			order[j], order[k] = order[k], order[j]
+		}
+		var unloaded []string
+		disk := rng.below(2) == 0
+		if disk && rng.below(2) == 0 {
+			unloaded = []string{places[idx[n+rng.below(len(places)-n)]]}
+		}
+		mk("random", files, unloaded, order, vchoice(rng, []string{"error", "rename"}), disk)
+	}
+	return out
+}
+
+func runHistory(t *testing.T, h history) map[string]any {
+	norm := func(p string) string { return p }
+	denorm := func(p string) string { return p }
+	var fp *fileprovider.InMemoryFileProvider
+	disk := []string{}
+	if h.Disk {
+		td := t.TempDir()
+		real, _ := filepath.EvalSymlinks(td)
+		norm = func(p string) string { return "/R" + strings.TrimPrefix(p, real) }
+		denorm = func(p string) string { return real + strings.TrimPrefix(p, "/R") }
+		var loaded []string
+		for _, kv := range h.Init {
+			ap := denorm(kv[0])
+			os.MkdirAll(filepath.Dir(ap), 0o755)
+			os.WriteFile(ap, []byte(kv[1]), 0o600)
+			loaded = append(loaded, ap)
+		}
+		for _, u := range h.Unloaded {
+			ap := denorm(u)
+			os.MkdirAll(filepath.Dir(ap), 0o755)
+			os.WriteFile(ap, []byte("unloaded"), 0o600)
+		}
+		filepath.Walk(real, func(p string, _ os.FileInfo, _ error) error {
+			disk = append(disk, norm(p))
+			return nil
+		})
+		var err error
+		fp, err = fileprovider.NewInMemoryFileProviderFromFS(loaded...)
+		if err != nil {
+			t.Fatal(err)
+		}
+	} else {
+		files := map[string]string{}
+		for _, kv := range h.Init {
+			files[kv[0]] = kv[1]
+		}
+		fp = fileprovider.NewInMemoryFileProvider(files)
+	}
+	starting, _ := fp.List()
+	fx := NewFixer()
+	if h.Policy == "rename" {
+		fx.SetOnConflictOperation(OnConflictRename)
+	}
+	rep := NewReport()
+	init := append([][2]string{}, h.Init...)
+	sort.Slice(init, func(a, b int) bool { return init[a][0] < init[b][0] })
+	var ops []vop
+	status := "ok"
+	for _, m := range h.Moves {
+		if status != "ok" {
+			break
+		}
+		op := vop{Op: "move", A: m.From, B: m.To, Root: "/R"}
+		err, to := withWatchdog(func() error {
+			return fx.handleRename(fp, rep, starting, fixes.FixResult{
+				Title: "directory-package-mismatch", Root: denorm("/R"),
+				Rename: &fixes.Rename{FromPath: denorm(m.From), ToPath: denorm(m.To)},
+			})
+		})
+		if to {
+			status = "hang"
+		} else if err != nil {
+			status = "error"
+		}
+		ops = append(ops, op)
+	}
+	nm := func(xs []string) []string {
+		o := []string{}
+		for _, x := range xs {
+			o = append(o, norm(x))
+		}
+		return sorted(o)
+	}
+	if status == "hang" {
+		return map[string]any{"kind": "seq", "policy": h.Policy, "init": init, "starting": nm(starting), "disk": sorted(disk), "ops": ops, "status": status,
+			"files": [][2]string{}, "modified": []string{}, "deleted": []string{}, "conflicts": nil, "has_conflicts": false, "hist": h}
+	}
+	filesN := [][2]string{}
+	lst, _ := fp.List()
+	for _, ap := range lst {
+		c, _ := fp.Get(ap)
+		filesN = append(filesN, [2]string{norm(ap), c})
+	}
+	sort.Slice(filesN, func(a, b int) bool { return filesN[a][0] < filesN[b][0] })
+	cf := conflictsOf(rep)
+	for i := range cf {
+		cf[i].Root, cf[i].To, cf[i].From = norm(cf[i].Root), norm(cf[i].To), norm(cf[i].From)
+	}
+	sort.Slice(cf, func(i, j int) bool {
+		a, b := cf[i], cf[j]
+		return a.Kind+"\x00"+a.Root+"\x00"+a.To+"\x00"+a.From < b.Kind+"\x00"+b.Root+"\x00"+b.To+"\x00"+b.From
+	})
+	return map[string]any{"kind": "seq", "policy": h.Policy, "init": init, "starting": nm(starting), "disk": sorted(disk), "ops": ops, "status": status,
+		"files": filesN, "modified": nm(fp.ModifiedFiles()), "deleted": nm(fp.DeletedFiles()),
+		"conflicts": cf, "has_conflicts": rep.HasConflicts(), "hist": h}
 }
